@@ -295,3 +295,114 @@ def fast_textwrap():
 
 
 fast_textwrap()
+
+
+# ------------------------------------------------------------------------------------------------ hash-seed model (C17)
+class VSet:
+    """Stand-in for the builtins `set` / `frozenset` *inside the cminx modules*: the only way the hash seed (PYTHONHASHSEED) can reach
+    the output of pure Python code over strings is the iteration order of sets (and explicit hash() calls). This class keeps the
+    elements in a list and iterates either in insertion order or in the reverse order, chosen by the harness (`VSet.rev`); both are
+    orders a real set of a few strings takes under some seed. Two runs that differ only in `VSet.rev` must produce the same result.
+    Membership is decided by == (no hashing: symbolic strings are not realised)."""
+    rev = False
+    used = 0
+
+    def __init__(self, it=()):
+        self._l = []
+        VSet.used += 1
+        for x in it:
+            self.add(x)
+
+    def __class_getitem__(cls, item):
+        return cls
+
+    def add(self, x):
+        for y in self._l:
+            if x == y:
+                return
+        self._l.append(x)
+
+    def update(self, *its):
+        for it in its:
+            for x in it:
+                self.add(x)
+
+    def __contains__(self, x):
+        for y in self._l:
+            if x == y:
+                return True
+        return False
+
+    def __len__(self):
+        return len(self._l)
+
+    def __bool__(self):
+        return len(self._l) > 0
+
+    def __iter__(self):
+        return iter(list(reversed(self._l)) if (VSet.rev and len(self._l) > 1) else list(self._l))
+
+    def discard(self, x):
+        self._l = [y for y in self._l if not (x == y)]
+
+    def remove(self, x):
+        if x not in self:
+            raise KeyError(x)
+        self.discard(x)
+
+    def pop(self):
+        if not self._l:
+            raise KeyError("pop from an empty set")
+        return self._l.pop(0 if VSet.rev else -1)
+
+    def clear(self):
+        self._l = []
+
+    def copy(self):
+        return VSet(self._l)
+
+    def union(self, *o):
+        r = VSet(self._l)
+        r.update(*o)
+        return r
+    __or__ = lambda self, o: self.union(o)
+    __ror__ = lambda self, o: VSet(o).union(self)
+
+    def intersection(self, *o):
+        return VSet([x for x in self._l if all(x in VSet(t) for t in o)])
+    __and__ = lambda self, o: self.intersection(o)
+
+    def difference(self, *o):
+        return VSet([x for x in self._l if not any(x in VSet(t) for t in o)])
+    __sub__ = lambda self, o: self.difference(o)
+
+    def issubset(self, o):
+        o = VSet(o)
+        return all(x in o for x in self._l)
+    __le__ = issubset
+
+    def issuperset(self, o):
+        return all(x in self for x in o)
+    __ge__ = issuperset
+
+    def isdisjoint(self, o):
+        return not any(x in self for x in o)
+
+    def __eq__(self, o):
+        if not isinstance(o, (VSet, set, frozenset)):
+            return NotImplemented
+        o = VSet(o)
+        return self.issubset(o) and o.issubset(self)
+
+    __hash__ = None
+
+    def __repr__(self):
+        return "VSet(%r)" % (self._l,)
+
+
+def install_set_model():
+    """shadow set/frozenset in the global namespace of every cminx module written in this repository (not the generated parser)"""
+    import cminx, cminx.aggregator, cminx.documenter, cminx.documentation_types, cminx.rstwriter, cminx.config
+    for m in (cminx, cminx.aggregator, cminx.documenter, cminx.documentation_types, cminx.rstwriter, cminx.config):
+        m.set = VSet
+        m.frozenset = VSet
